@@ -123,6 +123,7 @@ class Ctx:
         if self.violations:
             rc = 1
             os.makedirs(REPLAY_DIR, exist_ok=True)
+            context_dependent = set()
             for key, v in self._seen_sigs.items():
                 # determinism: re-evaluate the witness twice
                 if self.replay_fn is not None:
@@ -131,10 +132,16 @@ class Ctx:
                         r2 = [x.signature for x in self.replay_fn(v.case)]
                     except Exception as e:  # pragma: no cover
                         raise HarnessError(f"replay crashed: {e!r}")
-                    if r1 != r2 or v.signature not in r1:
+                    if r1 != r2:
                         raise HarnessError(
-                            f"replay diverged for {v.signature}: {r1} vs {r2}"
+                            f"replay is not deterministic for {v.signature}: {r1} vs {r2}"
                         )
+                    if v.signature not in r1:
+                        # Deterministic in the run (fixed enumeration order) but not reproducible from
+                        # the single case: the failure needs state left behind by EARLIER cases in the
+                        # same process (a class-level / module-level memo, a shared default object).
+                        # That is itself a breach of the property, not a harness fault.
+                        context_dependent.add(key)
                 h = hashlib.sha1(
                     json.dumps([v.signature, v.case], sort_keys=True, default=str).encode()
                 ).hexdigest()[:12]
@@ -146,6 +153,7 @@ class Ctx:
                             "signature": v.signature,
                             "what": v.what,
                             "case": v.case,
+                            "context_dependent": key in context_dependent,
                             "replay_cmd": f"./check {self.prop} --replay {path}",
                         },
                         fh, indent=1, default=str,
@@ -154,6 +162,9 @@ class Ctx:
                 print(f"VIOLATION property={self.prop} replay={path}")
                 print(f"  signature={v.signature}")
                 print(f"  what={v.what}")
+                if key in context_dependent:
+                    print("  note=witness fails only after the cases enumerated before it in the same "
+                          "process (state shared between instances / classes); re-run the check to reproduce")
         cov = dict(self.coverage)
         cov.setdefault("samples", [])
         cov["samples"] = cov["samples"][:8]
